@@ -93,7 +93,18 @@ def dec_scripts(seed, tier, stats):
                       'codec': 'raw', 'bufsz': 8, 'yield': 32768, 'limit_enc': -1, 'limit_dec': 2, 'items': [], 'wire': r['wire'],
                       'cuts': r['cuts'] + [64], 'body_pend': [], 'tail': tail, 'tail_at': len(r['cuts']), 'extra_polls': 1,
                       'expect': r['expect']})
-    return stims
+    # the same behaviours with a negotiated encoding: flagged frames of the model (lengths 0..3, arbitrary
+    # bytes) then reach the real decompressors; no prediction is attached (the model's compressor is abstract)
+    encs = ['gzip', 'deflate', 'zstd']
+    extra = []
+    for i, s0 in enumerate(stims):
+        if any(f == 1 for f in s0['wire'][:1]) or (i % 3 == 0):
+            s1 = dict(s0)
+            s1.pop('expect', None)
+            s1['dec_enc'] = encs[i % 3]
+            s1['class'] = 'tlc_behaviour_enc'
+            extra.append(s1)
+    return stims + extra
 
 
 def enc_scripts(stats):
@@ -102,7 +113,8 @@ def enc_scripts(stats):
         rows, st = core.tlc_export('Gen_FramingEnc', f'Gen_FramingEnc_{role}.cfg', workers=1, timeout=600)
         stats.append(st)
         for r in rows:
-            items = [({'k': 'msg', 'b': it['ser']} if it['k'] == 'msg' else it) for it in r['items']]
+            items = [({'k': 'msg', 'b': it['ser']} if it['k'] == 'msg' else
+                      {'k': 'encfail', 'b': [250, 17, len(it['ser'])] + it['ser']} if it['k'] == 'encfail' else it) for it in r['items']]
             for it in items:
                 if it['k'] == 'err':
                     it['msg'] = [101]
